@@ -358,7 +358,7 @@ class OfxgetWorld:
                                  f"{src[opt]} with {want!r} (sources setting it: {others}; OFX Home {'down' if self.home_down else 'up'})",
                                  option=opt, source=src[opt])
         # L1w: what actually went on the wire reflects the effective values
-        if run.ok and not run.dryrun:
+        if run.ok and not run.dryrun and run.cmd != "scan":
             self.judge_wire(run, expect)
         # L2 / L5: persistence
         if run.ok and run.write and not run.dryrun:
@@ -687,6 +687,57 @@ def draw_accounts(world):
     return spec
 
 
+V1S = [102, 103, 151, 160]
+V2S = [200, 201, 202, 203, 210, 211, 220]
+
+
+def scan_run(world, n):
+    """`ofxget scan <nick> [--url ..] --write`: the real 30-job profile scan on the simulated executor, then
+    the best working format is saved; the next run must use it."""
+    from dst import simexec
+    ch = world.ch
+    sim = world.sim
+    cli = {}
+    for opt in ("url", "ofxhome", "useragent"):
+        if ch.flag("cli." + opt, 0.3):
+            cli[opt] = world.draw_value(opt, "cli")
+    write = ch.flag("scan.write", 0.8)
+    mode = ch.pick("scan.accepts", 4)
+    accepted = {0: V1S + V2S, 1: V1S, 2: [102, 103, 203, 211], 3: []}[mode]
+    for fi in world.fis.values():
+        fi.reject_fn = lambda fi, hdr, body, acc=accepted: hdr["_version"] not in acc
+    simexec.MAX_WORKERS_OVERRIDE = [44, 3, 1, 8][ch.pick("scan.max_workers", 4)]
+    argv = ["scan", NICK]
+    for opt, v in cli.items():
+        argv += [CLI_FLAG[opt], str(v)]
+    if write:
+        argv.append("--write")
+    world.home_down = None
+    world.fault_next = None
+    world.acct_error = None
+    world.stmt_error = 0
+    run = ProcRun(n, argv, cli, "scan", write, False, False)
+    run.extra_expect = {}
+    expect, src = world.resolve(cli)
+    world.runs.append(run)
+    sim.log(f"scan: institutions accept OFX versions {accepted}")
+    world.process(run)
+    for fi in world.fis.values():
+        fi.reject_fn = None
+    simexec.MAX_WORKERS_OVERRIDE = None
+    sim.count("probe.scan_runs")
+    v2 = [v for v in accepted if v >= 200]
+    best = max(v2) if v2 else (max(accepted) if accepted else None)
+    if run.ok and best is not None and run.effective is not None:
+        run.after = dict(run.effective)
+        run.after["version"] = best      # the scan saves the highest working version; format flags it found
+        #                                  unnecessary are simply not written, so the effective ones stay
+        world.nontrivial = True
+    elif run.ok:
+        run.write = False          # nothing worked: nothing is saved
+    world.judge_c18(run, expect, src)
+
+
 def drive(world, tier):
     ch = world.ch
     sim = world.sim
@@ -695,6 +746,9 @@ def drive(world, tier):
     n_runs = 2 + ch.pick("n_runs", 5)
     faulty_family = ch.flag("cfg.faults", 0.4)
     for n in range(n_runs):
+        if focus == "C18" and ch.flag("run.scan", 0.05 if tier == "quick" else 0.1):
+            scan_run(world, n)
+            continue
         if focus == "C18":
             cmd = ["stmt", "prof", "stmtend", "acctinfo"][ch.weighted("run.cmd", [6, 2, 1, 1])]
         else:
